@@ -1073,6 +1073,16 @@ func (vc *FuncVC) execReturn(st *State, reach Term, ins *ssa.Return) {
 			vars[name] = v
 		}
 	}
+	for _, site := range vc.fc.Always {
+		if vc.discovery > 0 {
+			break
+		}
+		goal := TFalse
+		if lr, ok := vc.libResults[site]; ok {
+			goal = lr.reach
+		}
+		vc.oblige("T", fmt.Sprintf("always/%s/ret%d", site, k), reach, goal, vc.propTags(), ins.Pos(), "the call "+site+" is made on every path to this return")
+	}
 	if site := vc.fc.Forwards; site != "" && vc.discovery == 0 {
 		// forwards SITE: this return hands back exactly what the library call at SITE returned, and that call was made
 		goal := TFalse
